@@ -131,6 +131,84 @@ pub fn run(run: &Run) {
                 }
             }
         }
+        // operands of very different magnitude (exact power-of-two scalings: the product is unchanged or
+        // scaled by an exact power of two) and the same buffer passed as both operands
+        if m.max(l).max(n) <= 6 || (m, l, n) == (16, 17, 33) || (m, l, n) == (33, 64, 17) {
+            for &ta in &[false, true] {
+                for &tb in &[false, true] {
+                    let (ar, ac) = if ta { (l, m) } else { (m, l) };
+                    let (br, bc) = if tb { (n, l) } else { (l, n) };
+                    let a = fill(ar, ac, 0);
+                    let b = fill(br, bc, 50);
+                    let (want, _, _) = ref_mm(&a, ar, ac, ta, &b, br, bc, tb).unwrap();
+                    for (ea, eb) in [(-60i32, 60i32), (60, -60), (-40, -40), (-600, 600), (300, 300)] {
+                        let a2: Vec<f64> = a.iter().map(|v| v * 2f64.powi(ea)).collect();
+                        let b2: Vec<f64> = b.iter().map(|v| v * 2f64.powi(eb)).collect();
+                        let back = 2f64.powi(-(ea + eb));
+                        for blocked in [false, true] {
+                            run.case();
+                            run.tr();
+                            run.ok();
+                            run.nontrivial(1);
+                            let site = format!("{}/{}{}", if blocked { "matmul_blocked" } else { "matmul" }, fl(ta), fl(tb));
+                            let r = guard(|| if blocked { matmul_blocked(&a2, &b2, ar, br, ta, tb, 2) } else { matmul(&a2, &b2, ar, br, ta, tb) });
+                            match r {
+                                Ok(got) => {
+                                    let g: Vec<f64> = got.iter().map(|v| v * back).collect();
+                                    if !same(&g, &want) {
+                                        run.violate(&format!("{}/wrong-values/scaled-operands", site), || format!("A {}x{} * 2^{}, B {}x{} * 2^{}, ta={}, tb={}: got {:?} (rescaled {:?}), want sixteenths {:?}", ar, ac, ea, br, bc, eb, ta, tb, got, g, want));
+                                    } else {
+                                        run.regime("scaled-operands");
+                                    }
+                                }
+                                Err(p) => run.violate(&format!("{}/panic-on-conformable", site), || format!("scaled operands {}x{} {}x{}: {}", ar, ac, br, bc, p)),
+                            }
+                        }
+                    }
+                }
+            }
+        }
+        if n == 1 {
+            // the same buffer as both operands: AᵀA and AAᵀ
+            let a = fill(m, l, 0);
+            for (ta, tb) in [(true, false), (false, true)] {
+                let (want, _, _) = ref_mm(&a, m, l, ta, &a, m, l, tb).unwrap();
+                for blocked in [false, true] {
+                    run.case();
+                    run.tr();
+                    run.ok();
+                    run.nontrivial(1);
+                    let site = format!("{}/{}{}", if blocked { "matmul_blocked" } else { "matmul" }, fl(ta), fl(tb));
+                    match guard(|| if blocked { matmul_blocked(&a, &a, m, m, ta, tb, 3) } else { matmul(&a, &a, m, m, ta, tb) }) {
+                        Ok(got) => {
+                            if !same(&got, &want) {
+                                run.violate(&format!("{}/wrong-values/aliased-operands", site), || format!("A {}x{} passed as both operands, ta={}, tb={}: got {:?}, want sixteenths {:?}", m, l, ta, tb, got, want));
+                            } else {
+                                run.regime("aliased-operands");
+                            }
+                        }
+                        Err(p) => run.violate(&format!("{}/panic-on-conformable", site), || format!("aliased operands {}x{}: {}", m, l, p)),
+                    }
+                }
+            }
+            // the trait forms with the same object on both sides
+            let am = Matrix::new(a.clone(), m as i32, l as i32);
+            for which in 0..2 {
+                run.case();
+                run.tr();
+                run.ok();
+                let (ta, tb) = if which == 0 { (true, false) } else { (false, true) };
+                let (want, wr, wc) = ref_mm(&a, m, l, ta, &a, m, l, tb).unwrap();
+                match guard(|| if which == 0 { (&am).t_dot(&am) } else { (&am).dot_t(&am) }) {
+                    Ok(g) => {
+                        if g.shape() != [wr, wc] || !same(&g.data.v, &want) {
+                            run.violate(&format!("Dot/MatMat/{}/aliased-operands", if which == 0 { "t_dot" } else { "dot_t" }), || format!("x = {}x{}: x.{}(&x) = {:?} {:?}, want sixteenths {:?}", m, l, if which == 0 { "t_dot" } else { "dot_t" }, g.shape(), g.data.v, want));
+                        }
+                    }
+                    Err(p) => run.violate("Dot/MatMat/aliased-operands/panic", || format!("x = {}x{}: {}", m, l, p)),
+                }
+            }
+        }
         // xtx on an m×l matrix
         if n == 1 {
             let x = fill(m, l, 3);
@@ -335,7 +413,9 @@ pub fn run(run: &Run) {
     }
     run.require_regime("dot-conformable-ok");
     run.require_regime("dot-nonconformable-rejected");
-    run.assume("entries are small integers so that f64 arithmetic is exact; real-valued entries are not enumerated");
+    run.require_regime("scaled-operands");
+    run.require_regime("aliased-operands");
+    run.assume("entries are small integers and quarter-integers, also scaled by exact powers of two (2^-600..2^600), so that f64 arithmetic is exact; other real-valued entries are not enumerated");
     run.assume("the raw slice function matmul is judged on conformable calls only (the slice API cannot see logical shapes)");
 }
 
